@@ -386,6 +386,23 @@ def rule_k3(ctx, rule_id: str = "C12-K3") -> None:
             for k, v in zip(payload.keys, payload.values):
                 if const_str(k) == "stats":
                     stored = v
+        # the rows stored are the rows returned: the object the pipeline call was bound to, not a re-shaped copy (a
+        # DataFrame round trip fills the keys a row does not have with NaN; the run that fills the cache returns the
+        # original rows, every later run the padded ones)
+        stored_rows = None
+        if isinstance(payload, ast.Dict):
+            for k, v in zip(payload.keys, payload.values):
+                if const_str(k) == "result":
+                    stored_rows = v
+        if rule_id == "C12-K3" and stored_rows is not None:
+            bound = set()
+            for st_ in own_nodes(rb.node):
+                if isinstance(st_, ast.Assign) and any(st_.value is r_ for r_ in runs):
+                    bound |= {t.id for t in st_.targets if isinstance(t, ast.Name)}
+            okr = isinstance(stored_rows, ast.Name) and stored_rows.id in bound
+            ctx.instance(rule_id, "entry stores result=%s; the pipeline result is bound to %s" % (unparse(stored_rows)[:40], sorted(bound)), rb.loc(w), ok=okr)
+            if not okr:
+                ctx.finding(rule_id, "Balancer.__rebalance_batch:stored-rows", rb.loc(w), "the cache entry stores %s, not the rows the pipeline returned (%s): the run that fills the cache returns the original rows, a run served from it the re-shaped ones (a DataFrame round trip adds every missing key with NaN), so cached and uncached results differ" % (unparse(stored_rows)[:50], sorted(bound)))
         for r in runs:
             arg = r.args[1] if len(r.args) >= 2 else next((k.value for k in r.keywords if k.arg == (runf.params[2] if len(runf.params) > 2 else "stats")), None)
             ok = isinstance(stored, ast.Name) and isinstance(arg, ast.Name) and stored.id == arg.id
@@ -428,12 +445,12 @@ def check(ctx) -> None:
     rule_k10(ctx)
 
 
-def rule_k8(ctx) -> None:
+def rule_k8(ctx, rule_id: str = "C12-K8") -> None:
     """Input columns the pipeline does not know pass through to the output rows (`solved_by`, `confidence`, `rules`,
     `issue` survive preprocessing unless a stage overwrites them), so two batches with equal reactions and different
     other columns have different results.  The key has to cover the whole rows: the rows part of the hashed payload
     is the batch itself (or a copy), not a projection to some of its columns."""
-    ctx.rule("C12-K8", "the rows part of the hashed payload is the whole batch, not a projection of its rows", 1)
+    ctx.rule(rule_id, "the rows part of the hashed payload is the whole batch, not a projection of its rows", 1)
     prog = ctx.prog
     n = 0
     for q, f in sorted(prog.functions.items()):
@@ -479,10 +496,10 @@ def rule_k8(ctx) -> None:
             rows_parts = [v for v in parts if mentions_rows(v)]
             n += 1
             ok = bool(rows_parts) and all(whole(v) for v in rows_parts)
-            ctx.instance("C12-K8", "%s: rows part of the key payload: %s" % (f.name, [unparse(v)[:50] for v in rows_parts] or "none"), f.loc(c), ok=ok)
+            ctx.instance(rule_id, "%s: rows part of the key payload: %s" % (f.name, [unparse(v)[:50] for v in rows_parts] or "none"), f.loc(c), ok=ok)
             if not ok:
                 bad = next((v for v in rows_parts if not whole(v)), None)
-                ctx.finding("C12-K8", "Balancer.%s:key-over-projection" % f.name, f.loc(c), "the cache key covers %s instead of the whole rows: input columns the pipeline hands through to the output (solved_by, confidence, rules, issue, pass-through data) differ between two batches with the same reactions, and the later one is served the earlier one's rows" % (unparse(bad)[:60] if bad is not None else "no rows at all"))
+                ctx.finding(rule_id, "Balancer.%s:key-over-projection" % f.name, f.loc(c), "the cache key covers %s instead of the whole rows: input columns the pipeline hands through to the output (solved_by, confidence, rules, issue, pass-through data) differ between two batches with the same reactions, and the later one is served the earlier one's rows" % (unparse(bad)[:60] if bad is not None else "no rows at all"))
     ctx.require(n >= 1, "no call of get_hash_key found in the Balancer")
 
 
